@@ -40,16 +40,32 @@ func (e *Engine) inlTarget(x ast.Expr) (*ast.CallExpr, *Func, *types.Func) {
 	if !ok || call.Ellipsis.IsValid() {
 		return nil, nil, nil
 	}
-	callee, ok := e.Fn.Callee(call).(*types.Func)
-	if !ok || len(e.inlineStack) >= maxInlineDepth {
+	if len(e.inlineStack) >= maxInlineDepth {
 		return nil, nil, nil
+	}
+	callee, ok := e.Fn.Callee(call).(*types.Func)
+	var fn *Func
+	if !ok {
+		// a closure held in a local that is assigned exactly once: interpreted in place like a helper (it shares
+		// the variables it captures with the caller, so nothing has to be renamed)
+		lit, isLit := e.Fn.FuncValue(call.Fun).(*ast.FuncLit)
+		if !isLit || !e.cfg.InlineClosures {
+			return nil, nil, nil
+		}
+		callee = e.litFunc(lit)
+		if callee == nil {
+			return nil, nil, nil
+		}
+		fn = e.Fn.Lit(lit)
 	}
 	for _, c := range e.inlineStack {
 		if c == callee {
 			return nil, nil, nil
 		}
 	}
-	fn := e.cfg.Inline(call, callee)
+	if fn == nil {
+		fn = e.cfg.Inline(call, callee)
+	}
 	if fn == nil || fn.Body == nil || fn.Info != e.Fn.Info || fn.Type == nil {
 		return nil, nil, nil
 	}
@@ -416,4 +432,29 @@ func canonEq(k string) string {
 		a, b = b, a
 	}
 	return "eq:" + a + "==" + b
+}
+
+// litFunc returns the synthetic function object that stands for a function literal (one per literal).
+func (e *Engine) litFunc(lit *ast.FuncLit) *types.Func {
+	if o := e.litFuncs[lit]; o != nil {
+		return o
+	}
+	tv, ok := e.Fn.Info.Types[lit]
+	if !ok {
+		return nil
+	}
+	sig, ok := tv.Type.(*types.Signature)
+	if !ok {
+		return nil
+	}
+	var pkg *types.Package
+	if e.Fn.Pkg != nil {
+		pkg = e.Fn.Pkg.Types
+	}
+	o := types.NewFunc(lit.Pos(), pkg, "func@"+e.Fn.Pos(lit.Pos()), sig)
+	if e.litFuncs == nil {
+		e.litFuncs = map[*ast.FuncLit]*types.Func{}
+	}
+	e.litFuncs[lit] = o
+	return o
 }
